@@ -83,6 +83,9 @@ def jobs(tier):
                "defs": ["-DV_FAIL_NEVER", "-DC18_PENDING_ALLOWED"], "cbmc": LUN,
                "enforce": ["libClose/c_libClose"], "functions": ["libClose", "libPutHeader"],
                "inputs": [], "cls": "P", "native": False, "timeout": 200, "assumed": LIB_ASSUMED})
+    js.append({"name": "lib.libWrite.marks_output", "src": "lib_h.c", "entry": "h_libWrite", "defs": ["-DV_FAIL_NEVER"],
+               "cbmc": LUN, "functions": ["libWrite", "libNew", "libNewHeader"], "inputs": [], "cls": "P", "native": False,
+               "timeout": 200, "assumed": LIB_ASSUMED})
     # the open side (PASSES today): fileMustOpen never returns NULL -- an open failure is reported and does not return
     def F(name, defs, fns, kind="obligation"):
         js.append({"name": name, "src": "file_h.c", "entry": "h_fileMustOpen", "defs": defs, "kind": kind,
